@@ -197,7 +197,7 @@ where
     E: Model + BinarySerializer + BinaryDeserializer + Eq + Hash + Ord + Clone,
 {
     let ty = E::ty();
-    let rounds = ctx.n(6, 250);
+    let rounds = ctx.n(40, 400);
     for len in lengths(ctx) {
         for round in 0..rounds {
             let mut rng = ctx.rng_for(0xC12, name, (len as u64) << 20 | round);
@@ -285,7 +285,7 @@ where
     E: Model + BinarySerializer + BinaryDeserializer + Clone,
 {
     let ty = E::ty();
-    let rounds = ctx.n(6, 250);
+    let rounds = ctx.n(40, 400);
     for len in lengths(ctx) {
         for round in 0..rounds {
             let mut rng = ctx.rng_for(0xC12, name, (len as u64) << 20 | round);
@@ -335,7 +335,7 @@ where
     V: Model + BinarySerializer + BinaryDeserializer + Clone,
 {
     let pair_ty = Ty::Tuple(vec![K::ty(), V::ty()]);
-    let rounds = ctx.n(20, 600);
+    let rounds = ctx.n(100, 1500);
     for len in [0usize, 1, 2, 3, 5, 8, 17, 40, 64, 128] {
         for round in 0..rounds {
             let mut rng = ctx.rng_for(0xC12 ^ 0x3A9, name, (len as u64) << 20 | round);
@@ -370,7 +370,7 @@ where
 }
 
 fn byte_family(ctx: &mut Ctx, acc: &mut Acc) {
-    let rounds = ctx.n(60, 1500);
+    let rounds = ctx.n(300, 3000);
     let mut lens: Vec<usize> = vec![0, 1, 2, 3, 7, 16, 17, 32, 100, 127, 128, 200];
     if ctx.thorough() {
         lens.extend([16383, 16384, 70000]);
